@@ -79,6 +79,29 @@ class Harness:
         if self.deleted_before:
             self.c('append_after_delete')
 
+    def op_append_self(self, idx):
+        # append a row that was READ from the array itself (reads hand out views of the buffer): a list appends the value read
+        self.hist.append(['AS', idx])
+        want = list(self.m[idx])
+        try:
+            self.a.append(self.a[idx])
+        except Exception as e:
+            raise Viol('append_raises', f'append(a[{idx}]) raised {e!r} at len {len(self.m)}')
+        self._model_append([want], single=True)
+        self.c('append_self_read_rows')
+
+    def op_append_multiple_self(self, start, stop):
+        self.hist.append(['MS', start, stop])
+        want = [list(r) for r in self.m[start:stop]]
+        if not want:
+            return
+        try:
+            self.a.append_multiple(self.a[start:stop])
+        except Exception as e:
+            raise Viol('append_multiple_raises', f'append_multiple(a[{start}:{stop}]) raised {e!r} at len {len(self.m)}')
+        self._model_append(want)
+        self.c('append_self_read_rows')
+
     def op_append_multiple(self, k):
         rs = [self.new_row() for _ in range(k)]
         self.hist.append(['M', k])
@@ -342,7 +365,14 @@ def _random(job):
         for step in range(length):
             n = len(h.m)
             r = rng.random()
-            if drop_at:
+            if n and rng.random() < 0.08:
+                # rows read from the array itself are appended again
+                if rng.random() < 0.7:
+                    h.op_append_self(rng.choice([0, -1, rng.randrange(-n, n)]))
+                else:
+                    a_ = rng.randrange(0, n)
+                    h.op_append_multiple_self(a_, min(n, a_ + rng.randint(1, 3)))
+            elif drop_at:
                 if r < 0.8 or n == 0:
                     h.op_append()
                 else:
